@@ -160,6 +160,23 @@ def r3_replay(ctx, fam):
     if not checked:
         ctx.bad(construct, 'no-eio-connect', 'connect never connects the '
                 'transport', where(f))
+    # what is replayed is what the application asked for: the connection_*
+    # attributes are written by connect() (and the constructor) only
+    for param, attr in REPLAY:
+        for wf, stmt in m.attr_writes.get(attr, []):
+            owner = wf
+            while owner.cls is None and owner.parent is not None:
+                owner = owner.parent
+            if owner.cls is None or owner.cls.name not in (C, 'BaseClient'):
+                continue
+            ctx.check(owner.name in ('__init__', 'connect'),
+                      '%s.%s' % (owner.cls.name, owner.name),
+                      'self.%s is written by connect() only' % attr,
+                      key='replay-writer ' + attr, reason='%s.%s rewrites '
+                      'self.%s: a later reconnection replays something else '
+                      'than the %s the application connected with' % (
+                          owner.cls.name, owner.name, attr, param),
+                      where=where(wf, stmt))
     g = m.method(C, '_handle_reconnect')
     calls = [n for n in walk_own(g.node) if isinstance(n, ast.Call) and
              U(n.func) == 'self.connect']
